@@ -21,7 +21,7 @@ surface (`output_edges_twinned`).
 * `step_recloses_surface` — the same for a whole main-loop pass from a `Twin` state, the only hypothesis left being `ClosedLoop`
   (no half-edge twice, every boundary half-edge listed, cyclic end-point matching) — the part that rounding can break and that
   `fix_silhouette_topology` exists for; it is NOT proved in general.
-* `mainLoop_closed_surface` — for all runs: if every attaching pass of the run has a `ClosedLoop` silhouette that needs no repair,
+* `mainLoop_closed_surface` — for all runs: if every attaching pass of the run emits its silhouette in cyclic order and needs no repair,
   the final facet array satisfies `Twin`.
 * `output_edges_twinned` — `Twin` implies: every directed edge of every output triangle has its reverse in an output triangle.
 -/
@@ -179,14 +179,36 @@ theorem step_recloses_surface (ts : Array (Facet K)) (pts : Array (V3 K)) (point
   attach_twin _ _ _ _ _ _ _ _
     (preAttach_of_silInv ts pts point _ hT (silhouetteStep_inv ts pts point i hT hi hv).1 hc) h
 
+/-- **no half-edge is listed twice in the silhouette** (from a `Twin` state). -/
+theorem silhouette_no_duplicates (ts : Array (Facet K)) (pts : Array (V3 K)) (point i : Nat) (hT : Twin ts) (hi : i < ts.size)
+    (hv : (tAt ts i).valid = true) (q q' : Nat) (e : Nat × Nat)
+    (h : (silhouetteStep pts point i ts).out[q]? = some e) (h' : (silhouetteStep pts point i ts).out[q']? = some e) : q = q' :=
+  silhouetteStep_nodup ts pts point i hT hi hv q q' e h h'
+
+/-- the ONE clause about the silhouette that is not proved in general: consecutive entries (cyclically) share an end point, i.e.
+the ORDER in which `compute_silhouette` emits the boundary half-edges is one closed loop.  It fails when the removed region is not
+a topological disc (rounding: a facet "seen" in the middle of unseen ones, a pinched region) — the case `fix_silhouette_topology`
+exists for. -/
+def CyclicLoop (ts : Array (Facet K)) (sil : Array (Nat × Nat)) : Prop :=
+  ∀ (i : Nat) (e e' : Nat × Nat), sil[i]? = some e → sil[(i + 1) % sil.size]? = some e' → secondOf ts e' = firstOf ts e
+
+/-- **the silhouette of the visible region is a closed loop when adjacency is symmetric**, up to the emission order:
+from a `Twin` state the silhouette lists each boundary half-edge of the removed region exactly once (`silhouette_complete`,
+`silhouette_no_duplicates`, `silhouette_entries_sound`); if in addition its order is cyclic it is a `ClosedLoop`. -/
+theorem closedLoop_of_cyclic (ts : Array (Facet K)) (pts : Array (V3 K)) (point i : Nat) (hT : Twin ts) (hi : i < ts.size)
+    (hv : (tAt ts i).valid = true)
+    (hc : CyclicLoop (silhouetteStep pts point i ts).ts (silhouetteStep pts point i ts).out) :
+    ClosedLoop (silhouetteStep pts point i ts).ts (silhouetteStep pts point i ts).out :=
+  ⟨silhouetteStep_nodup ts pts point i hT hi hv, silhouetteStep_complete ts pts point i hT hi hv, hc⟩
+
 /-- hypothesis of the all-runs theorem at pass `i`: when the pass attaches a point, the silhouette needs no repair
-(`needs_fixing == false`), is not empty and is a `ClosedLoop` -/
+(`needs_fixing == false`), is not empty and is emitted in cyclic order (`CyclicLoop`) -/
 def StepClosed (negMax : K) (pts : Array (V3 K)) (i : Nat) (ts : Array (Facet K)) : Prop :=
   ∀ point, (tAt ts i).valid = true →
     indexedSupportPointId negMax (tAt ts i).normal pts (tAt ts i).vis.toList = some point →
     (countSeconds pts.size (silhouetteStep pts point i ts).ts (silhouetteStep pts point i ts).out).2 = false ∧
     (silhouetteStep pts point i ts).out.isEmpty = false ∧
-    ClosedLoop (silhouetteStep pts point i ts).ts (silhouetteStep pts point i ts).out
+    CyclicLoop (silhouetteStep pts point i ts).ts (silhouetteStep pts point i ts).out
 
 /-- the facet array never shrinks in a pass -/
 theorem mainStep_size (negMax : K) (pts : Array (V3 K)) (i : Nat) (ts : Array (Facet K)) (und : Array Nat)
@@ -207,7 +229,8 @@ theorem mainStep_size (negMax : K) (pts : Array (V3 K)) (i : Nat) (ts : Array (F
         cases hcv : (tAt ts i).valid with
         | true => rfl
         | false => simp [hcv] at hva
-      obtain ⟨hnf, hne, hcl⟩ := hc point hv hsupp
+      obtain ⟨hnf, hne, hcy⟩ := hc point hv hsupp
+      have hcl := closedLoop_of_cyclic ts pts point i hT hi hv hcy
       have hfix : fixSilhouetteTopology negMax pts (silhouetteStep pts point i ts) = some (silhouetteStep pts point i ts) := by
         unfold fixSilhouetteTopology
         generalize hcs : countSeconds pts.size (silhouetteStep pts point i ts).ts (silhouetteStep pts point i ts).out = cs at hnf
@@ -245,7 +268,8 @@ theorem mainStep_closed_surface (negMax : K) (pts : Array (V3 K)) (i : Nat) (ts 
         cases hcv : (tAt ts i).valid with
         | true => rfl
         | false => simp [hcv] at hva
-      obtain ⟨hnf, hne, hcl⟩ := hc point hv hsupp
+      obtain ⟨hnf, hne, hcy⟩ := hc point hv hsupp
+      have hcl := closedLoop_of_cyclic ts pts point i hT hi hv hcy
       have hfix : fixSilhouetteTopology negMax pts (silhouetteStep pts point i ts) = some (silhouetteStep pts point i ts) := by
         unfold fixSilhouetteTopology
         generalize hcs : countSeconds pts.size (silhouetteStep pts point i ts).ts (silhouetteStep pts point i ts).out = cs at hnf
@@ -269,7 +293,7 @@ def RunClosed (negMax : K) (pts : Array (V3 K)) : Nat → Nat → Array (Facet K
       ∀ brk ts' und', mainStep negMax pts i ts und = .ok (brk, ts', und') → RunClosed negMax pts fuel (i + 1) ts' und')
 
 /-- **INVARIANT THEOREM FOR ALL RUNS**: starting from a closed consistently oriented surface (the two initial facets,
-`initial_facets_closed`), if every attaching pass of the run has a `ClosedLoop` silhouette that needs no repair, then the facet
+`initial_facets_closed`), if every attaching pass of the run emits its silhouette in cyclic order and needs no repair, then the facet
 array the main loop ends with is again a closed consistently oriented surface — `check_facet_links` holds for every valid facet. -/
 theorem mainLoop_closed_surface (negMax : K) (pts : Array (V3 K)) : ∀ (fuel i : Nat) (ts : Array (Facet K)) (und : Array Nat)
     (tsF : Array (Facet K)), Twin ts → i ≤ ts.size → RunClosed negMax pts fuel i ts und →
